@@ -21,10 +21,12 @@ var unaryOps = []string{"!", "~", "neg"}
 
 // Exp is what the reference demands for one evaluation.
 type Exp struct {
-	Def      bool // the reference defines the outcome
-	Throw    bool // a catchable error
-	V        Val  // the value (kind + payload)
-	KindOnly bool // only V.K is demanded
+	Def      bool   // the reference defines the outcome
+	Throw    bool   // a catchable error
+	V        Val    // the value (kind + payload)
+	KindOnly bool   // only V.K is demanded
+	Ulps     int    // float value may be off by this many units in the last place (0 = exact)
+	Note     string // appended to the violation key: which part of the cell this evaluation is in
 }
 
 func expV(v Val) Exp       { return Exp{Def: true, V: v} }
@@ -57,7 +59,7 @@ func truthy(v Val) (t bool, ok bool) {
 		return false, true
 	case "arr1", "amap":
 		return true, true
-	case "obj":
+	case "obj", "fn":
 		return true, true
 	}
 	return false, false
@@ -209,14 +211,32 @@ func refBinary(op string, a, b Val) Exp {
 			if b.I < 0 {
 				return undefined()
 			}
-			if b.I > 64 && a.I != 0 && a.I != 1 && a.I != -1 {
-				return undefined() // certainly overflows
+			// the result is the exact integer while it fits and a float (the nearest one, give
+			// or take pow's rounding) when it does not: an int that wrapped around is garbage
+			if b.I > two53 && a.I != 0 && a.I != 1 {
+				return undefined() // the exponent itself is not a float64: parity is lost on the float path
+			}
+			if b.I > 1100 && a.I != 0 && a.I != 1 && a.I != -1 {
+				inf := math.Inf(1)
+				if a.I < 0 && b.I%2 == 1 {
+					inf = math.Inf(-1)
+				}
+				return expV(vFloat(inf))
 			}
 			z := new(big.Int).Exp(big.NewInt(a.I), big.NewInt(b.I), nil)
 			if v, ok := bigFits(z); ok {
 				return expV(vInt(v))
 			}
-			return undefined()
+			f, _ := new(big.Float).SetInt(z).Float64()
+			e := expV(vFloat(f))
+			// float pow squares repeatedly (relative error grows with the exponent) and a base
+			// above 2^53 is rounded before it is raised
+			e.Ulps = 16 + 2*int(b.I)
+			e.Note = "above-2^63" // |exact result| beyond the int range
+			if z.Cmp(new(big.Int).Lsh(big.NewInt(1), 63)) == 0 {
+				e.Note = "at-2^63" // exactly MaxInt+1: the float-to-int range test's own boundary
+			}
+			return e
 		}
 		if num {
 			return expV(vFloat(math.Pow(a.AsF(), b.AsF())))
